@@ -8,7 +8,8 @@ with the real text is what the correspondence check establishes.
 -/
 namespace GoModel
 
-inductive Section | defaultName | name | synopsis | commandList | optionList | commandInfo
+/-- `HelpSection`; `none` is `HelpNone`, which prints nothing -/
+inductive Section | defaultName | name | synopsis | commandList | optionList | commandInfo | none
 deriving DecidableEq, Repr, Inhabited
 
 def spaces (n : Nat) : Str := List.replicate n chSp
@@ -156,6 +157,7 @@ def helpSection (ext : Ext) (P : Prog) (n : Nat) (sec : Section) : Str :=
     if !nd.helpName.isEmpty && nd.cmds.length > 1 then
       b "Use '" ++ scriptName P n ++ b " help <command>' for extra details.\n"
     else []
+  | .none => []
 
 def defaultSections : List Section := [.defaultName, .synopsis, .commandList, .optionList, .commandInfo]
 
